@@ -1,4 +1,5 @@
 import Pds.Proofs.KernelTie.HashIter
+import Pds.Proofs.KernelTie.CmsOps
 /-!
 # C02 — tie by translation: `HashIter::next` (the column of row `i`)
 -/
@@ -12,5 +13,18 @@ theorem cms_columns_translated (hash : List Nat → Nat) (w d x i : Nat) (hw : w
 /-- hence every translated column is in range -/
 theorem column_lt (i h1 h2 w f : Nat) (hw : w ≠ 0) : hashiter_next i h1 h2 w f < w := by
   unfold hashiter_next; exact Nat.mod_lt _ (Nat.pos_of_ne_zero hw)
+
+/-- `add_n` as translated (row loop, cell index `i * w + pos`, running minimum, both `checked_add`s), on the
+model's state and the element's columns: the returned estimate and the table of the model's `addN` -/
+theorem cms_add_n_translated (hash : List Nat → Nat) (s : Cms.St) (x n : Nat) (cols : List Nat)
+    (hc : HashIter.positions hash s.w s.d x = some cols) :
+    cms_add_n s.w s.cmax s.table.toList n cols =
+      match Cms.addN hash s x n with
+      | none => Flow.panic
+      | some (s', r) => Flow.ret (r, s'.table.toList) := by
+  rw [cms_add_n_eq]
+  unfold Cms.addN
+  rw [hc]
+  rfl
 
 end Pds.Tie.C02
